@@ -184,9 +184,8 @@ def instantiate(unit, inst, wd):
         if hole not in text:
             raise Undecided('template of %s has no hole %s' % (unit.name, hole))
         text = text.replace(hole, (e.banner() + '\n' + e.text) if not getattr(e, 'inline', False) else e.text.strip())
-    left = re.findall(r'@@\w+@@', text)
-    if left:
-        raise Undecided('unfilled holes in %s: %s' % (unit.name, left))
+    # bodies this unit does not extract: a stub that fails if it is ever reached (never a silent pass)
+    text = re.sub(r'@@(\w+)@@', lambda m: '{ __CPROVER_assert(0, "body %s is not extracted in this unit but was reached"); }' % m.group(1), text)
     path = os.path.join(d, 'unit.c')
     with open(path, 'w') as f:
         f.write('/* GENERATED on every run from %s — do not edit */\n' % INCLUDE)
